@@ -469,7 +469,14 @@ func (r *Runner) assignVal(name string, prev expand.Variable, as *syntax.Assign,
 	if valType == "-A" {
 		amap := make(map[string]string, len(elems))
 		for _, elem := range elems {
-			k := r.literal(elem.Index.(*syntax.Word))
+			w, ok := elem.Index.(*syntax.Word)
+			if !ok {
+				// No subscript, as in a=([x]=1 2), or one that is not a word, as in a=([1+1]=x).
+				r.errf("%s: must use subscript when assigning associative array\n", name)
+				r.exit.code = 1
+				continue
+			}
+			k := r.literal(w)
 			amap[k] = r.literal(elem.Value)
 		}
 		if !as.Append {
